@@ -1274,7 +1274,31 @@ func fatalExceptionAlwaysFailsTheConnection(c *kit.Ctx) {
 				// a return that is not known to carry an error (the naked return of the named result after the
 				// reads succeeded)
 				ev := returnedError(r)
-				return ev == nil || !(kit.NonNil(ev) || kit.NonNil(kit.Root(ev)))
+				if ev == nil {
+					return true
+				}
+				if kit.NonNil(ev) || kit.NonNil(kit.Root(ev)) {
+					return false
+				}
+				// `if err != nil { return err }` with err kept in memory (named result, deferred closure)
+				raw := kit.Res(r, len(r.Results)-1)
+				for _, f := range kit.FactsAt(r.Block()) {
+					cmp, ok := kit.CanonCmp(f.Cond, f.Pol)
+					if ok && cmp.Op == token.NEQ && kit.IsNilConst(cmp.Y) &&
+						(cmp.X == ev || cmp.X == raw || kit.SameCond(cmp.X, raw) || kit.SameCond(cmp.X, ev) || kit.Root(cmp.X) == kit.Root(ev)) {
+						return false
+					}
+					if ok && cmp.Op == token.NEQ && kit.IsNilConst(cmp.Y) {
+						// the tested load and the returned one read the same store (go/ssa stores the named result
+						// to itself before running the deferred calls)
+						if u, isLoad := cmp.X.(*ssa.UnOp); isLoad && u.Op == token.MUL {
+							if al, isAlloc := u.X.(*ssa.Alloc); isAlloc && kit.ReachingStore(u, al) == ev {
+								return false
+							}
+						}
+					}
+				}
+				return true
 			},
 			SkipEdge: func(from, to *ssa.BasicBlock) bool {
 				// the claim found nothing: not a response to anything we sent (handled as a connection error)
